@@ -2,6 +2,7 @@ mod auth;
 mod codec;
 mod config;
 mod distro;
+mod naming;
 mod sequence;
 mod util;
 
@@ -13,6 +14,7 @@ fn main() {
     match model {
         "codec" => codec::run(),
         "distro" => distro::run(),
+        "naming" => naming::run(),
         "config" => config::run(),
         "openapi" | "console" | "perm" => auth::run(model),
         "sequence" => sequence::run(),
